@@ -12,6 +12,9 @@ UNITS = {
     "int_encoders": {"template": "contracts/int_encoders.vrs", "rlimit": 30},
     "conditions_parse": {"template": "contracts/conditions_parse.vrs", "rlimit": 60},
     "conditions_effects": {"template": "contracts/conditions_effects.vrs", "rlimit": 120},
+    "mempool_visitor": {"template": "contracts/mempool_visitor.vrs", "rlimit": 60},
+    "generator_len": {"template": "contracts/generator_len.vrs", "rlimit": 30},
+    "aggsig": {"template": "contracts/aggsig.vrs", "rlimit": 60},
     "costs": {"template": "contracts/costs.vrs", "rlimit": 30},
     "blob_cache": {"template": "contracts/blob_cache.vrs", "rlimit": 60},
     "bls_cache": {"template": "contracts/bls_cache.vrs", "rlimit": 30},
@@ -230,6 +233,44 @@ PROPS["C02"] = {
     "not_covered": [
         "validate_conditions: MintingCoin / ReserveFeeConditionFailed comparisons over the bundle totals",
         "drivers: reported puzzle hash is the tree hash of the revealed puzzle (run_block_generator2, run_spendbundle call sites)",
+    ],
+}
+
+PROPS["C05"] = {
+    "level": "proof",
+    "technique": "Verus contracts on the real make_aggsig_final_message, u64_to_bytes, Coin::coin_id, check_agg_sig_unsafe_message and to_key (extracted verbatim) against one signed-text spec aggsig_suffix(op, coin attributes, domain constant)",
+    "level_text": "Deductive proof: the helper that recomputes a spend's final signed message appends exactly the coin attributes selected by the opcode followed by that opcode's domain constant (amount in canonical form, AGG_SIG_ME over sha256(parent ‖ puzzle hash ‖ canon(amount))); an AGG_SIG_UNSAFE message is rejected exactly when it ends with one of the seven domain constants; to_key accepts exactly decodable non-infinity 48-byte keys.",
+    "level_note": "That an aggregate signature verifies exactly for the right multiset of (key, message) pairs is pairing algebra inside blst (assumed). The message construction inside parse_conditions' eight AGG_SIG arms and validate_signature / validate_clvm_and_signature are not yet tied to the same spec (not_covered).",
+    "components": [V("aggsig"), V("int_encoders")],
+    "assumptions": ["blst: key decoding (pk_decode) and signature verification are uninterpreted", "Sha256 ghost model"],
+    "not_covered": [
+        "the eight AGG_SIG arms of parse_conditions (pkm_pairs construction) against aggsig_suffix; DONT_VALIDATE_SIGNATURE gating",
+        "validate_signature dispatch, validate_clvm_and_signature pairing loop, cache vs no-cache verdict (see C15)",
+    ],
+}
+PROPS["C08"] = {
+    "level": "proof",
+    "technique": "Verus contracts on the real clvm_bytes_len and calculate_generator_length (extracted; generic parameter monomorphised) against the CLVM serialisation-length spec of (q . (spends)); QUOTE_BYTES lemma",
+    "level_text": "Deductive proof for every list of coin spends (any reveals, any u64 amounts): the predicted generator length equals the serialized length of the quoted spend list, 5 + sum(39 + |puzzle| + ser_len(canon(amount)) + |solution|) as derived from the serialisation format, and the quote-wrapper overhead is exactly 2 bytes.",
+    "level_note": "Agreement of run_spendbundle with run_block_generator2 over build_generator(bundle), back-reference compression and the block builders are not under contract (they need CLVM execution / Serializer contracts).",
+    "components": [V("generator_len"), V("int_encoders")],
+    "assumptions": ["reveals are serialized CLVM (their byte length is their serialized length)", "Program::as_ref returns the wrapped bytes"],
+    "not_covered": [
+        "run_spendbundle vs run_block_generator2 driver equivalence; calculate_base_cost INTERNED branch",
+        "solution_generator / build_generator actually emit that many bytes; back-reference serialisation; block builders (C10)",
+    ],
+}
+PROPS["C19"] = {
+    "level": "proof",
+    "technique": "Verus contracts on the real MempoolVisitor::{new_spend, condition} and EmptyVisitor (extracted verbatim) against the dedup / fast-forward eligibility rules and the visitor frame contract parse_conditions relies on",
+    "level_text": "Deductive proof over every condition and flag word: a signature or message condition always clears dedup eligibility and nothing else touches it; fast-forward eligibility is cleared exactly by the listed identity/age/announcement commitments; eligibility bits are never set by condition(); visitors change nothing but the flags and never the relative-condition mark.",
+    "level_note": "post_spend (excess-amount rule, same-puzzle-hash output rule: iterator closures), fast_forward_singleton (clvm_traits decoders) and compute_puzzle_fingerprint are not yet under contract; re-running the rewritten solution is CLVM execution (out of reach).",
+    "components": [V("mempool_visitor")],
+    "assumptions": ["fewer than 2^31 conditions per spend (allocator limit) as precondition of condition()"],
+    "not_covered": [
+        "MempoolVisitor::post_spend and post_process",
+        "fast_forward_singleton guard + frame; curry_and_treehash; compute_puzzle_fingerprint framing injectivity",
+        "the rewritten solution runs successfully and creates the same coins (CLVM execution)",
     ],
 }
 
